@@ -39,6 +39,9 @@ DSchema ==
     ("U"  :> DUnion("nsa", "", FALSE, <<Tag("tv", TVoid), Tag("tp", I32b)>>)) @@
     ("V"  :> DUnion("nsa", "U", FALSE, <<Tag("tw", TVoid)>>)) @@
     ("Ak" :> DAlias("nsa", TRef("K"), "")) @@
+    \* an alias, in an imported namespace, of a union of a THIRD namespace (which nsa does not import)
+    ("T3" :> DUnion("nsc", "", TRUE, <<Tag("ta", TVoid), Tag("tb", TVoid)>>)) @@
+    ("A3" :> DAlias("nsb", TRef("T3"), "")) @@
     ("L"  :> DStruct("nsb", "", <<Fld("l1", I32b)>>, <<>>, FALSE))
 DTypes == << I32b, TInt("Int32", Unset, Unset), TInt("UInt64", Unset, Unset), TInt("Int64", 10, Unset),
              TFloat("Float64", 5, 11), TFloat("Float32", Unset, Unset), TFloat("Float64", Unset, Unset),
@@ -48,12 +51,13 @@ DTypes == << I32b, TInt("Int32", Unset, Unset), TInt("UInt64", Unset, Unset), TI
              \* floats bounded on one side only
              TFloat("Float64", Unset, 11), TFloat("Float64", 5, Unset),
              \* String(pattern=""): what an empty pattern means is not documented
-             TStr(Unset, Unset, "p0") >>
+             TStr(Unset, Unset, "p0"),
+             TRef("A3") >>
 Lits == {LInt(r) : r \in {3, 4, 6, 7, 8, 9, 10, 12, 13, 15, 16, 24, 25}} \cup
         {LFloat(r) : r \in {0, 1, 4, 5, 9, 11, 12, 16, 17}} \cup
         {LStr(n, f, p) : n \in {0, 1, 2, 3, 4}, f \in BOOLEAN, p \in BOOLEAN} \cup
         {LBool(TRUE), LBool(FALSE), LNull, LTs(TRUE), LTs(FALSE)} \cup
-        {LTag(n) : n \in {"red", "size", "tv", "tp", "tw", "zz"}}
+        {LTag(n) : n \in {"red", "size", "tv", "tp", "tw", "zz", "ta"}}
 \* a string literal cannot fully match without matching as a prefix; the empty string matches p1 in no way
 LitOk(l) == l.k = "lstr" => ((l.full => l.prefix) /\ (l.len = 0 => (~l.full /\ ~l.prefix)))
 
